@@ -1464,7 +1464,13 @@ class GR(G):
             return ("ok", ("expr", ("assign", ("var", self.pick(self.nums)), self.nexpr())))
         if c < 86 and self.objs:
             return ("ok", ("expr", ("assign", ("prop", ("var", self.pick(self.objs)), "f"), self.nexpr())))
-        k = self.i(0, 4)
+        k = self.i(0, 8)
+        if k >= 5:
+            # an entry that declares a module symbol and raises before it is assigned: the symbol stays behind
+            # unusable, everything declared before and after must keep working
+            name = self.fresh("zzd")
+            return ("bad", ["let %s = Number.parse(\"x12\");", "let %s = [][3];", "let %s = nil + 1;",
+                            "class %s : 5 {}"][k - 5] % name)
         return ("bad", ["print(1;", "let = 5;", "raise Error(\"x\");", "print(undeclared_zz);", "class { }", ][k])
 
     def forced(self, lo, hi):
@@ -1738,8 +1744,24 @@ class GT(G):
         # build the chain from the innermost frame outwards
         call = None  # expression that calls the previous level
         names = []
+        report_at = [("print", ("prop", ("var", "e"), "message")),
+                     ("for", "bt", ("prop", ("var", "e"), "backTrace"), [("print", ("var", "bt"))])]
         for lvl in range(depth):
-            body = inner if lvl == 0 else self.filler() + [("expr", call)] + self.filler()
+            if lvl == 0:
+                body = inner
+            else:
+                callst = [("expr", call)]
+                c = self.i(0, 9)
+                if c < 3 and kind in ("raise", "fault"):
+                    # a handler on the way that does not match: the error passes through this frame, which must
+                    # still be reported at the line of its call
+                    callst = [("try", self.filler() + callst + self.filler(),
+                               [("w", self.pick(["FormatError", "ChannelError", "DeadLockError"]), [("print", ("str", "wrong handler"))])]
+                               + ([("w2", "SyntaxError", self.filler())] if self.chance(30) else []))]
+                elif c < 4 and kind in ("raise", "fault"):
+                    # caught half way up: the back trace covers the frames between the raise and this one
+                    callst = [("try", self.filler() + callst, [("e", None, report_at)])]
+                body = self.filler() + callst + self.filler()
             shape = self.i(0, 6) if not (kind == "exit" and False) else 0
             nm = "lv%d" % lvl
             if shape <= 1:
